@@ -57,6 +57,9 @@ CLAIMED = {
     "C06": ("Coq proof (reported usage = execution-time peak of live tiles whenever no holder's run of relevant loops is cut by another tensor's holder node; never below the peak in any valid mapping; over-subscription rejected iff some finite memory is exceeded; refuted witness for the order-dependent case = finding F9) + differential correspondence; the closed-form peak is validated against explicit first-use/last-use traces",
             "C06_single, C06_never_under_reports, C06_reject, C06_order_dependent_refuted over the model of insert_reservation_nodes / analyze_reservation / run_model for single-Einsum mappings; evaluate_mapping's resource_usage() and acceptance are compared with the vm_compute-evaluated model and with the execution-time peak occupancy on random mappings with comfortable / exact / too-small memories. PARTIAL: fused multi-Einsum mappings (the joiner's reservation algebra) and persistent tensors x n_instances are not modelled.",
             "Coq kernel; single Einsum, temporal loops; tile-granular liveness with streaming as reference (validated by brute-force traces in the harness); known finding F9"),
+    "C31": ("Coq proof (Toll transparency: erasing Tolls below a Memory changes no Memory count and no upward traffic, hence by C05 equals execution; no write actions; charge = crossing traffic filtered by direction) + differential correspondence of evaluate_mapping on mappings with Toll holders + mapper runs on a Toll architecture",
+            "C31_transparent, C31_no_writes, C31_reads, C31_only_in_direction over the model of analyze_toll; evaluate_mapping on random specs with a Toll level (per-tensor directions) is compared with a forwarding execution and with the vm_compute-evaluated model (every action, latency, energy column; no Toll writes / occupancy); real map_workload_to_arch runs on a two-Einsum Toll architecture check that no returned mapping has a Toll as outermost holder of the shared tensor. The mapper's template generation is not modelled (clause 3 is oracle-only).",
+            "Coq kernel; MiniForge class (single Einsum, temporal loops) for the accounting; clause 3 checked on mapper outputs only"),
 }
 
 PENDING_REASON = "check not built yet in this round (planned, see DESIGN.md section 6); not claimed until its proof and correspondence exist"
